@@ -151,6 +151,14 @@ func buildVia(entry string, cfg cors.Config) (*cors.Middleware, error) {
 		}
 		err = m.Reconfigure(&cfg)
 		return m, err
+	case "reconf-configured-debug":
+		m, err := cors.NewMiddleware(c05BaseCfg)
+		if err != nil {
+			panic("base config rejected: " + err.Error())
+		}
+		m.SetDebug(true)
+		err = m.Reconfigure(&cfg)
+		return m, err
 	case "reconf-neighbour":
 		// prior state = a configuration that differs from cfg in ONE field only and is accepted (so that an
 		// incremental / state-reusing Reconfigure has something to reuse); the library is only used here to
@@ -202,7 +210,7 @@ func neighbours(cfg cors.Config) []cors.Config {
 	return out
 }
 
-var entries = []string{"new", "reconf-zero", "reconf-configured", "reconf-neighbour"}
+var entries = []string{"new", "reconf-zero", "reconf-configured", "reconf-neighbour", "reconf-configured-debug"}
 
 func c05Run(r *Run, l *Local, c *CfgSpec, entry, note string) {
 	want := c.violations()
@@ -260,7 +268,7 @@ func specKey(c *CfgSpec) string {
 func TestVerif_C05(t *testing.T) {
 	r := newRun(t, "C05")
 	r.Rule("configurations assembled from labelled atoms (ground truth by construction): exhaustive single-atom sweeps (every atom of every table alone and at each position of a 3-element list, under every combination of Credentialed x PNA x tolerate flags), " +
-		"every subset of the 7 violable fields violated at once, the valid cross-field cube, and PRNG configurations stratified by the number of injected violation kinds (0..12); all three entry points. " +
+		"every subset of the 7 violable fields violated at once, the valid cross-field cube, and PRNG configurations stratified by the number of injected violation kinds (0..12); all entry points (NewMiddleware; Reconfigure on a zero value, on a configured middleware, on a configured middleware in debug mode, and on a middleware holding a configuration that differs in one field only). " +
 		"non-trivial = configuration with >= 2 distinct expected error keys, or a valid configuration that relies on a cross-field permission (tolerate flag, `*` next to discrete values, safelisted names); distinct by hash of the Config literal + entry point")
 	r.Assume("atom labels (valid / insecure / public-suffix / defect) are correct by construction; expected errors follow the Config, ExtraConfig and cfgerrors documentation; Reason is not pinned between invalid|prohibited for origin-pattern syntax defects")
 
